@@ -27,7 +27,12 @@ type Val struct {
 	S     string
 	C     *big.Int
 	Tuple []Val
+	Dyn   types.Type // for an interface value made from a value of this type at this very point (MakeInterface)
 }
+
+// constMethodHook: (dynamic type, method name) -> the literal a constant method returns (set by the loader; see
+// Program.constMethod).
+var constMethodHook func(t types.Type, name string) (*big.Int, types.Type, bool)
 
 var mathIntType = types.NewNamed(types.NewTypeName(0, nil, "mathint", nil), types.Typ[types.Int64], nil)
 
